@@ -201,6 +201,68 @@ CATALOG = [
     ("benign-N_r3", "benign", "N_r3.diff", [("R-SCANLEN", None)]),
     ("benign-O_r12", "benign", "O_r12.diff", [("R-COUNTERWIDTH", None)]),
     # one-place substitutions for rules nothing above exercises: (file, old, new)
+    # repaired rewrites / correct rewrites that once raised an alarm: must stay silent
+    ("benign-R4_C04_m12", "benign", "R4_C04_m12.diff", [("R-WINDOW", None)]),
+    ("benign-R4_C13_m11", "benign", "R4_C13_m11.diff", [("R-WINDOW", None)]),
+    ("benign-R4_C06_m12", "benign", "R4_C06_m12.diff", [("R-PROBE", None)]),
+    ("benign-R4_C02_m12", "benign", "R4_C02_m12.diff", [("R-IDGUARD", None), ("R-BUCKET", None)]),
+    ("benign-R4_C08_m12", "benign", "R4_C08_m12.diff", [("R-MIRROR", None), ("R-DERIVED", None)]),
+    ("benign-R4_C13_m12", "benign", "R4_C13_m12.diff", [("R-DUPSKIP", None), ("R-STALESIZE", None)]),
+    ("benign-R4_C01_m12", "benign", "R4_C01_m12.diff", [("R-JOIN", None), ("R-LOCKSET", None), ("R-CV", None)]),
+    ("benign-R4_C15_m10", "benign", "R4_C15_m10.diff", [("R-METADATA", None), ("R-SLOT", None), ("R-CV", None)]),
+    ("benign-R4_C15_m11", "benign", "R4_C15_m11.diff", [("R-METADATA", None)]),
+    ("benign-R4_C15_m12", "benign", "R4_C15_m12.diff", [("R-METADATA", None)]),
+    ("benign-R4_C16_m10", "benign", "R4_C16_m10.diff", [("R-STUB", None), ("R-DEDUP", None)]),
+    ("benign-R4_C16_m11", "benign", "R4_C16_m11.diff", [("R-TAGS", None)]),
+    ("benign-R4_C10_m10", "benign", "R4_C10_m10.diff", [("R-DRAIN", None), ("R-ONCE", None)]),
+    ("benign-R4_C11_m10", "benign", "R4_C11_m10.diff", [("R-DRAIN", None), ("R-ONCE", None)]),
+    ("benign-R4_C11_m12", "benign", "R4_C11_m12.diff", [("R-WORKERPURE", None)]),
+    ("benign-R4_C12_m11", "benign", "R4_C12_m11.diff", [("R-SLOT", None), ("R-CV", None)]),
+    ("benign-R4_C09_m10", "benign", "R4_C09_m10.diff", [("R-JOIN", None)]),
+    ("benign-R4_C10_m12", "benign", "R4_C10_m12.diff", [("R-JOIN", None)]),
+    ("benign-R4_C05_m10", "benign", "R4_C05_m10.diff", [("R-CUMSUM", None)]),
+    ("benign-R4_C20_m10", "benign", "R4_C20_m10.diff", [("R-STALEVAR", None), ("R-FIXEDBUF", None)]),
+    ("benign-R4_C17_m10", "benign", "R4_C17_m10.diff", [("R-VBYTE", None)]),
+    ("benign-J_r8", "benign", "J_r8.diff", [("R-EXTENT", None)]),
+    ("benign-PP_r4", "benign", "PP_r4.diff", [("R-QUERYPURE", None)]),
+    ("benign-PU_r2", "benign", "PU_r2.diff", [("R-SELECTRANGE", None)]),
+    ("benign-R4_C09_m11", "benign", "R4_C09_m11.diff", [("R-ONCE", None)]),
+    ("benign-R4_C20_m12", "benign", "R4_C20_m12.diff", [("R-RPGAP", None)]),
+    ("benign-R4_C04_m10", "benign", "R4_C04_m10.diff", [("R-BISECT", None)]),
+    ("benign-R4_C03_m10", "benign", "R4_C03_m10.diff", [("R-DERIVED", None)]),
+    ("benign-R4_C17_m12", "benign", "R4_C17_m12.diff", [("R-DERIVED", None), ("R-MIRROR", None)]),
+    # round 4 (rewrites of 10-40 lines)
+    ("seed-C01_m10", "seeded", "C01_m10", [("R-PROBE", 'Hash::insert#probe-0')]),
+    ("seed-C01_m12", "seeded", "C01_m12", [("R-LOCKSET", 'race:StringDictionaryHASHRPDACBlocks::parts')]),
+    ("seed-C02_m10", "seeded", "C02_m10", [("R-PREDINDEX", 'binary_search_before_index#predecessor-of-begin')]),
+    ("seed-C02_m12", "seeded", "C02_m12", [("R-IDGUARD", 'StringDictionaryPFC::extract#unguarded-upper')]),
+    ("seed-C03_m10", "seeded", "C03_m10", [("R-DERIVED", 'StringDictionaryPFC:StringDictionaryPFC::lastBuc')]),
+    ("seed-C04_m11", "seeded", "C04_m11", [("R-ALPHAGUARD", 'SSA::backward_search#occ-unchecked')]),
+    ("seed-C04_m12", "seeded", "C04_m12", [("R-WINDOW", 'StringDictionaryRPDAC::extractPrefix#empty-windo')]),
+    ("seed-C05_m10", "seeded", "C05_m10", [("R-CUMSUM", 'SSA::build_index#occ-cumsum-short')]),
+    ("seed-C05_m12", "seeded", "C05_m12", [("R-QUERYPURE", 'StringDictionaryFMINDEX::substrOccurrences#write')]),
+    ("seed-C06_m11", "seeded", "C06_m11", [("R-MIRROR", 'StringDictionaryXBW::save<->StringDictionaryXBW:')]),
+    ("seed-C06_m12", "seeded", "C06_m12", [("R-PROBE", 'HashBdh::search#probe-0')]),
+    ("seed-C07_m10", "seeded", "C07_m10", [("R-SLACK", 'StringDictionaryPFC::StringDictionaryPFC#slack')]),
+    ("seed-C07_m12", "seeded", "C07_m12", [("R-PREDINDEX", 'binary_search_before_index#predecessor-of-begin')]),
+    ("seed-C08_m10", "seeded", "C08_m10", [("R-EXTENT", 'SSA::suff_sample#ctor0')]),
+    ("seed-C08_m11", "seeded", "C08_m11", [("R-SAVEPURE", 'LogSequence::save#write-to-this->array')]),
+    ("seed-C08_m12", "seeded", "C08_m12", [("R-DERIVED", 'StringDictionaryHASHRPDACBlocks:StringDictionary')]),
+    ("seed-C09_m10", "seeded", "C09_m10", [("R-LOCKSET", 'race:StringDictionaryHASHRPDACBlocks::parts')]),
+    ("seed-C09_m12", "seeded", "C09_m12", [("R-WORKERPURE", 'HashRP::createHash#writes-global-spare_table')]),
+    ("seed-C11_m10", "seeded", "C11_m10", [("R-LOCKSET", 'race:WorkerQueue::q')]),
+    ("seed-C11_m11", "seeded", "C11_m11", [("R-LOCKSET", 'race:StringDictionaryHASHRPDACBlocks::parts')]),
+    ("seed-C11_m12", "seeded", "C11_m12", [("R-WORKERPURE", 'nearest_prime#writes-global-last_n')]),
+    ("seed-C12_m11", "seeded", "C12_m11", [("R-SLOT", 'StringDictionaryHASHRPDACBlocks::StringDictionar')]),
+    ("seed-C13_m11", "seeded", "C13_m11", [("R-WINDOW", 'StringDictionaryRPDAC::extractPrefix#empty-windo')]),
+    ("seed-C13_m12", "seeded", "C13_m12", [("R-STALESIZE", 'IteratorDictIDXBWDuplicates::IteratorDictIDXBWDu')]),
+    ("seed-C14_m10", "seeded", "C14_m10", [("R-PATTERN", 'RePair::extractStringAndCompareRP#param1-not-res')]),
+    ("seed-C14_m11", "seeded", "C14_m11", [("R-QUERYPURE", 'StringDictionaryPFC::locateBucket#write-to-this.')]),
+    ("seed-C14_m12", "seeded", "C14_m12", [("R-QUERYPURE", 'SSA::locate#write-to-this.occs_buf')]),
+    ("seed-C16_m10", "seeded", "C16_m10", [("R-STUB", 'StringDictionaryFMINDEX::locateSubstr#guard')]),
+    ("seed-C16_m11", "seeded", "C16_m11", [("R-TAGS", 'StringDictionaryHASHRPF::load#early-object-rp')]),
+    ("seed-C17_m12", "seeded", "C17_m12", [("R-DERIVED", 'StringDictionaryHASHRPDAC:DAC_VLS::levelsWords')]),
+    ("seed-C20_m10", "seeded", "C20_m10", [("R-FIXEDBUF", 'RePair::expandRule#local#3-unbounded-index')]),
     ("sub-mirror-width", "subst", ("StringDictionaryPFC.cpp", "dict->buckets = loadValue<uint32_t>(in);", "dict->buckets = loadValue<uint64_t>(in);"),
      [("R-MIRROR", "StringDictionaryPFC::save")]),
     ("sub-resave", "subst", ("StringDictionaryPFC.cpp", "dict->blStrings = new LogSequence(in);",
